@@ -1,6 +1,8 @@
 CONSTANTS FlawShallowListFreeze = TRUE
  FlawSharedConstants = TRUE
  FlawInPlaceSort = TRUE
+ FlawAppendSharesCapacity = TRUE
+ OnlyTargets = {}
  MaxMut = 2
  DeepVias = {"direct"}
  LastVias = {"alias"}
